@@ -254,14 +254,44 @@ func c04Worker(w *W) {
 		}
 		done := make(chan struct{})
 		go func() { wg.Wait(); close(done) }()
-		select {
-		case <-done:
-		case <-time.After(90 * time.Second):
+		// No wall-clock verdict: under Block a producer parked on the full queue is normal while the consumer is slow or
+		// the machine is loaded. The producers are only declared blocked when nothing at all was delivered or discarded for
+		// six consecutive 10 s observations AND the consumer is not inside the harness's own appender.
+		progress := func() int64 { return int64(rec.count()) + l.GetDiscardCounter() }
+		last, stale, waited := progress(), 0, 0
+	waitProducers:
+		for {
+			select {
+			case <-done:
+				break waitProducers
+			case <-time.After(10 * time.Second):
+			}
+			waited++
+			if cur := progress(); cur != last {
+				last, stale = cur, 0
+				if waited > 120 {
+					w.Inconclusive("C04 producers still making progress after 20 minutes: " + c.class())
+					w.flush()
+					return
+				}
+				continue
+			}
+			if stale++; stale < 6 {
+				continue
+			}
 			dump := goroutineDump()
-			if blocked, gr := blockedInLibrary(dump, "c04Worker"); blocked {
-				w.Violate("C04:producer-blocked:"+c.Policy, "a producer is parked inside the library although the consumer is free to run:\n"+trunc(gr, 1500), c)
-			} else {
-				w.Inconclusive("C04 producers did not finish within the watchdog: " + c.class())
+			consumer := ""
+			for _, gr := range strings.Split(dump, "\n\n") {
+				if strings.Contains(gr, "(*AsyncLogger).Start.func") {
+					consumer = gr
+				}
+			}
+			blocked, gr := blockedInLibrary(dump, "c04Worker")
+			switch {
+			case blocked && !strings.Contains(consumer, "main.(*V"):
+				w.Violate("C04:producer-blocked:"+c.Policy, "no item was delivered or discarded for 60 s while a producer is parked inside the library and the consumer is not inside the appender:\n"+trunc(gr, 1200)+"\n-- consumer goroutine --\n"+trunc(consumer, 1200), c)
+			default:
+				w.Inconclusive("C04 producers made no progress for 60 s (consumer inside the harness appender or no producer parked in the library): " + c.class())
 			}
 			w.flush()
 			return
